@@ -122,6 +122,13 @@ func c05Compare(src, dst []*c05Ent, o c05Opts) []c05Diff {
 	}
 	for _, s := range src {
 		d, ok := dm[s.Rel]
+		if k := s.kind(); k == "fifo" || k == "sock" {
+			// not archived (tar warns and skips them): outside the property, but they must stay out cleanly
+			if ok {
+				add(s, "presence", "absent", "present", "untar/extra-entry")
+			}
+			continue
+		}
 		if !ok {
 			// an entry below a skipped or missing entry is reported once, at the top
 			if p := filepath.Dir(s.Rel); s.Rel != "." && p != "." {
@@ -129,11 +136,7 @@ func c05Compare(src, dst []*c05Ent, o c05Opts) []c05Diff {
 					continue
 				}
 			}
-			if k := s.kind(); k == "fifo" || k == "sock" {
-				add(s, "presence", "present", "missing", "tar/fifo-skipped")
-			} else {
-				add(s, "presence", "present", "missing", "untar/missing-entry")
-			}
+			add(s, "presence", "present", "missing", "untar/missing-entry")
 			continue
 		}
 		if s.Mode&syscall.S_IFMT != d.Mode&syscall.S_IFMT {
@@ -168,12 +171,9 @@ func c05Compare(src, dst []*c05Ent, o c05Opts) []c05Diff {
 				add(s, "rdev", fmt.Sprintf("%#x", s.Rdev), fmt.Sprintf("%#x", d.Rdev), "untar/device-number")
 			}
 		}
-		if xs, xd := xattrString(s.Xattrs), xattrString(d.Xattrs); xs != xd {
-			cl := "untar/xattrs"
-			if o.noSameOwner && len(d.Xattrs) == 0 {
-				cl = "untar/no-same-owner-xattrs"
-			}
-			add(s, "xattrs", xs, xd, cl)
+		// what --no-same-owner does to owner-related attributes is the option's business, not the property's
+		if xs, xd := xattrString(s.Xattrs), xattrString(d.Xattrs); xs != xd && !o.noSameOwner {
+			add(s, "xattrs", xs, xd, "untar/xattrs")
 		}
 		if !o.noMtime && (s.Sec != d.Sec || s.Nsec != d.Nsec) {
 			dt := time.Unix(d.Sec, d.Nsec)
@@ -182,10 +182,10 @@ func c05Compare(src, dst []*c05Ent, o c05Opts) []c05Diff {
 			switch {
 			case inWindow && s.kind() == "dir" && kids[s.Rel] > 0:
 				cl = "untar/dir-mtime"
-			case inWindow && s.kind() == "link":
-				cl = "untar/symlink-mtime"
 			case s.Sec == 0 && s.Nsec == 0 && (inWindow || o.scrambled && d.Sec == 1234567 && d.Nsec == 89):
 				cl = "untar/mtime-epoch" // not set at all: the time of creation, or what the object had before
+			case inWindow && s.kind() == "link":
+				cl = "untar/symlink-mtime"
 			case !nsFits(s.Sec):
 				cl = "tar/mtime-after-2262"
 			}
